@@ -719,6 +719,9 @@ func VisitWithTypeInfo(ttypeInfo typeInfo.TypeInfoI, visitorOpts *VisitorOptions
 								ttypeInfo.Enter(result)
 							}
 						}
+					} else if action == ActionSkip {
+						// the traversal will not call Leave for a skipped node
+						ttypeInfo.Leave(node)
 					}
 					return action, result
 				}
